@@ -425,6 +425,85 @@ def run_serialization_conversions(st):
     apischema.cache.reset()
 
 
+TD_EXTRA_SRC = """
+class Hue(Enum):
+    RED = "red"
+@dataclass
+class Acct:
+    n: int = 0
+class AllPlain(TypedDict):
+    x: int
+    names: List[str]
+class Partial(TypedDict, total=False):
+    x: int
+    tags: Dict[str, str]
+class WithEnum(TypedDict):
+    x: int
+    hue: Hue
+class WithObj(TypedDict):
+    x: int
+    acct: Acct
+BASES = {
+    "AllPlain": (AllPlain, {"x": 1, "names": ["a"]}),
+    "Partial": (Partial, {"x": 1}),
+    "Partial+tags": (Partial, {"tags": {"k": "v"}}),
+    "WithEnum": (WithEnum, {"x": 1, "hue": Hue.RED}),
+    "WithObj": (WithObj, {"x": 1, "acct": Acct(2)}),
+}
+EXTRAS = {
+    "none": {},
+    "json": {"zz": 1, "yy": [1, {"a": None}]},
+    "tuple": {"pair": (1, 2)},
+    "enum": {"color": Hue.RED},
+    "object": {"who": Acct(3)},
+    "nested": {"deep": {"k": [(1,), Hue.RED]}},
+    "set": {"s": frozenset([1])},
+}
+"""
+
+
+def run_typeddict_extras(st):
+    """TypedDicts serialized with additional_properties on / off, the value carrying undeclared items whose values are not
+    JSON yet (tuples, enum members, objects, nested): every (no_copy, check_type, route) vector gives the same, JSON-only,
+    result; with no_copy=False nothing mutable is shared with the value"""
+    from ..realize import PRELUDE, exec_source
+
+    mod = exec_source(PRELUDE + TD_EXTRA_SRC)
+    try:
+        for bname, (tp, base_items) in mod.BASES.items():
+            for ename, extra in mod.EXTRAS.items():
+                for ap in (False, True):
+                    results = {}
+                    for nc, ct, route in itertools.product((False, True), (True, False), ("method", "function")):
+                        v = dict(base_items, **extra)
+                        st.case("td_extras", bname, ename, ap, nc, ct, route)
+                        try:
+                            if route == "method":
+                                out = apischema.serialization_method(tp, additional_properties=ap, no_copy=nc, check_type=ct)(v)
+                            else:
+                                out = apischema.serialize(tp, v, additional_properties=ap, no_copy=nc, check_type=ct)
+                            results[(nc, ct, route)] = ("ok", out, tsig(out))
+                        except Exception as e:
+                            results[(nc, ct, route)] = ("exc", type(e).__name__, None)
+                        if not nc and results[(nc, ct, route)][0] == "ok":
+                            before, got = set(), set()
+                            containers(v, before)
+                            containers(out, got)
+                            if before & got:
+                                st.violation({"label": "td_extras:" + bname, "options": [ap, nc, ct, route], "signature": {"kind": "aliasing_with_no_copy_false", "shape": "td_extras", "side": "serialization"}, "what": f"{bname} + extras {ename}: with no_copy=False the result shares a container with the value: {out!r}"[:300]})
+                    ref_key = (False, True, "method")
+                    ref = results[ref_key]
+                    for k, r in results.items():
+                        if r != ref:
+                            st.violation({"label": "td_extras:" + bname, "options": [ap] + list(k), "signature": {"kind": "ser_option_changes_result", "option": "no_copy=%s,check_type=%s" % k[:2], "shape": "td_extras", "additional_properties": ap}, "what": f"serialize({bname}, items + extras {ename}, additional_properties={ap}) with no_copy={k[0]} check_type={k[1]} via {k[2]} gives {r[:2]!r} but no_copy=False check_type=True gives {ref[:2]!r}"[:500]})
+                            break
+    finally:
+        import sys
+
+        sys.modules.pop(mod.__name__, None)
+        apischema.cache.reset()
+
+
 def work(tier, widx, nworkers, st, extra):
     import os
 
@@ -435,6 +514,14 @@ def work(tier, widx, nworkers, st, extra):
             import traceback
 
             st.violation({"signature": {"kind": "harness_error"}, "harness_error": True, "what": "serialization conversions", "traceback": traceback.format_exc()[-2000:]})
+
+    if widx == (2 % nworkers) and os.environ.get("VERIF_ONLY") in (None, "", "disc", "td_extras"):
+        try:
+            run_typeddict_extras(st)
+        except Exception:
+            import traceback
+
+            st.violation({"signature": {"kind": "harness_error"}, "harness_error": True, "what": "typeddict extras", "traceback": traceback.format_exc()[-2000:]})
 
     if widx == 0 and os.environ.get("VERIF_ONLY") in (None, "", "disc"):
         try:
